@@ -143,6 +143,13 @@ def gen_case(rng, quick=True):
                 case.update(force_balanced=True, errcalc='lib')
         if rng.random() < 0.08:
             case['recalc'] = rng.choice([1, 2, 3])
+        if case.get('ggrid', 'trap') == 'trap' and case.get('op', 'int') == 'int' and not case.get('force_balanced') and rng.random() < 0.3:
+            # many small refinement steps: only the objects of maximal benefit are split (margin 1), far below the point at which the
+            # maximum level - and with it the combination scheme - changes again: consecutive stops share the scheme, not the refinement
+            d2 = case['a'][:2], case['b'][:2]
+            case.update(a=d2[0], b=d2[1], comps=[[[c, e[:2]] for c, e in t] for t in comps], margin=1.0, steps=rng.choice([5, 6, 7, 8]),
+                        errcalc=['scripted', rng.randrange(1 << 20)], lmax=rng.choice([2, 3, 3]), cap=800, small_steps=True)
+            case.pop('dim_adaptive', None)
     elif strat == 'es':
         case.update(version=rng.choice([0, 0, 0, 0, 0, 1, 1, 1, 2, 3]), lmax=rng.choice([2, 2, 3]), nrbe=rng.choice([1, 1, 2, 3]), auto=rng.random() < 0.25,
                     single_dim=rng.random() < 0.4,
@@ -205,6 +212,8 @@ def gen_case(rng, quick=True):
         case['idle'] = [bool(names) and rng.random() < 0.6 or rng.random() < 0.1 for names in case['observers']]
     if strat in ('es', 'dw', 'cell') and rng.random() < 0.1:
         case['reeval_legs'] = True      # started with reevaluate_at_end=True: every leg ends with evaluate_final_combi on the live object
+    if strat in ('es', 'dw', 'cell'):
+        case['single_runs'] = rng.random() < 0.6      # the two uninterrupted comparison runs (reevaluate_at_end on/off, solutions_storage)
     if not in_scope(case):
         # coarsening versions 1..3 keep stale area results after a scheme change on the unchanged tree: there a re-evaluation from
         # scratch on the live object legitimately replaces them (and changes what later legs subtract) - only the pure observers
@@ -363,12 +372,24 @@ def _stop_record(sa, op, case, ret, with_rule):
         rec['final_container'] = A.vec(rv2) if np.ndim(rv2) > 0 and np.size(rv2) == len(case['comps']) else None
     except Exception as e:  # observable
         rec['final_combi'] = 'exc:' + type(e).__name__
+    # what the rule is a function of: the combination scheme and the refinement
+    rec['scheme_sig'] = str((sorted(([int(x) for x in g.levelvector], float(g.coefficient)) for g in sa.scheme), [int(x) for x in sa.lmax]))
+    if case['strat'] == 'dw':
+        rec['ref_sig'] = str([[(float(o.start), float(o.end)) for o in c.get_objects()] for c in sa.refinement.refinementContainers])
+    else:
+        rec['ref_sig'] = str(sorted((tuple(float(x) for x in o.start), tuple(float(x) for x in o.end)) for o in sa.refinement.get_objects()))
     if with_rule:
+        # the published rule is asked on the LIVE object at EVERY stop (an answer remembered from an earlier stop would be stale)
         try:
-            rec['rule'] = _rule(copy.deepcopy(sa), case)
+            rec['rule'] = _rule(sa, case)
         except Exception as e:
             rec['rule'] = 'exc:%s:%s' % (type(e).__name__, str(e)[:100])
     return rec
+
+
+def _with_rule(case):
+    """the property constrains the public points / weights for the standard and dimension-wise strategies on nodal grids"""
+    return case['strat'] == 'dw' and case.get('op', 'int') == 'int' and case.get('ggrid', 'trap') in NODAL_GLOBAL
 
 
 def _logging_classes():
@@ -444,12 +465,15 @@ def impl_run(case):
     strat = case['strat']
     if strat == 'std':
         sc, op, f, _ = _build(case)
+        pre = None
         with A.quiet():
-            if case.get('pre'):       # an earlier request with other levels on the same object
-                sc.perform_operation(case['pre'][0], case['pre'][1])
+            if case.get('pre'):       # an earlier request with other levels on the same object; its rule is asked as well
+                r0 = sc.perform_operation(case['pre'][0], case['pre'][1])
+                fresh0, scale0, _ = _fresh_total(sc, case)
+                pre = dict(reported=A.vec(r0[2]), fresh=fresh0, scale=scale0, rule=_rule(sc, case))
             r = sc.perform_operation(case['lmin'], case['lmax'])
         fresh, scale, _ = _fresh_total(sc, case)
-        return dict(reported=A.vec(r[2]), fresh=fresh, scale=scale, rule=_rule(sc, case),
+        return dict(reported=A.vec(r[2]), fresh=fresh, scale=scale, rule=_rule(sc, case), pre=pre,
                     scheme=[[[int(x) for x in g.levelvector], A.fl(g.coefficient)] for g in sc.scheme])
     if strat == 'da':
         da, op, f, _ = _build(case)
@@ -481,7 +505,7 @@ def impl_run(case):
     for k in range(case['steps'] + 1):
         op.events.append([6])
         rets.append((ret[3], np.array(ret[3], copy=True)))
-        rec = _stop_record(sa, op, case, ret, with_rule=(strat == 'dw' and case.get('op', 'int') == 'int' and case.get('ggrid', 'trap') in NODAL_GLOBAL))
+        rec = _stop_record(sa, op, case, ret, with_rule=_with_rule(case))
         rec['aliased'] = [i for i, (live, snap) in enumerate(rets[:-1]) if not np.array_equal(live, snap)]
         stops.append(rec)
         names = (case.get('observers') or [])[k] if k < len(case.get('observers') or []) else []
@@ -494,7 +518,7 @@ def impl_run(case):
             ret = A.cont(sa, -1.0, 1, 1)
             op.events.append([6])
             rets.append((ret[3], np.array(ret[3], copy=True)))
-            rec = _stop_record(sa, op, case, ret, with_rule=False)
+            rec = _stop_record(sa, op, case, ret, with_rule=_with_rule(case))
             rec['aliased'] = [i for i, (live, snap) in enumerate(rets[:-1]) if not np.array_equal(live, snap)]
             rec['loop_k'] = k
             rec['idle'] = True
@@ -520,14 +544,14 @@ def impl_run(case):
         op.events.append([11])                   # reinit_new_objects (the container is not an object the operation sees)
         ret = A.perform(sa, eo, case, -1.0, 1, 1, refinement_container=sa.refinement, **_perform_kw(case))
         op.events.append([6])
-        rec = _stop_record(sa, op, case, ret, with_rule=False)
+        rec = _stop_record(sa, op, case, ret, with_rule=_with_rule(case))
         rec['aliased'] = []
         rec['restart'] = True
         stops.append(rec)
     # (d) uninterrupted runs with the same final limits, with and without re-evaluation at the end; the run without also records
     # the solutions of every evaluation (solutions_storage)
     out = dict(stops=stops, events=op.events[offset:], points=int(sa.get_total_num_points()))
-    for flag in (False, True):
+    for flag in ((False, True) if case.get('single_runs', True) else ()):
         sb, opb, fb, eob = _build(case, logging=False)
         kw = _perform_kw(case)
         storage = None
@@ -849,10 +873,11 @@ def run_adaptive_checks(chk, case, r, mjobs):
         # (d) re-evaluation at the end of an uninterrupted run; solutions_storage
         last = [st for st in r['stops'] if not st.get('restart')][-1]
         scale = [Fraction(A.unfl(x)) for x in last['scale']]
-        same_as_stepwise = all(close(r['single_False'][j], q(last['reported'][j]), scale[j]) for j in range(nout))
-        if not same_as_stepwise:
+        have_single = 'single_False' in r
+        same_as_stepwise = have_single and all(close(r['single_False'][j], q(last['reported'][j]), scale[j]) for j in range(nout))
+        if have_single and not same_as_stepwise:
             chk.count('single-run-differs-from-stepwise (C14 territory)')
-        if not stale_any and not recalc_fired and not all(close(r['single_True'][j], q(r['single_False'][j]), scale[j]) for j in range(nout)):
+        if have_single and not stale_any and not recalc_fired and not all(close(r['single_True'][j], q(r['single_False'][j]), scale[j]) for j in range(nout)):
             chk.violation('oracle:reevaluation', 'reevaluation-differs', dict(sig, via='reevaluate_at_end'), dict(case, steps=nst - 1, limit=r['points'] - 1),
                           dict(without=[A.unfl(x) for x in r['single_False']], with_reevaluate_at_end=[A.unfl(x) for x in r['single_True']]))
         if r.get('storage_aliased'):
@@ -946,6 +971,14 @@ def run_simple_checks(chk, case, r, mjobs):
                           dict(reported=[A.unfl(x) for x in r['reported']], independent=[A.unfl(x) for x in r['fresh']]))
         if 'rule' in r:
             check_rule(chk, case, case, r['rule'], r['reported'], scale, sig, late, 0)
+        if r.get('pre'):
+            p0 = r['pre']
+            sc0 = [Fraction(A.unfl(x)) for x in p0['scale']]
+            pc = dict(case, lmin=case['pre'][0], lmax=case['pre'][1], pre=None)
+            if not all(close(p0['reported'][j], q(p0['fresh'][j]), sc0[j]) for j in range(nout)):
+                chk.violation('oracle:combination', 'combination-differs', sig, pc,
+                              dict(reported=[A.unfl(x) for x in p0['reported']], independent=[A.unfl(x) for x in p0['fresh']]))
+            check_rule(chk, pc, pc, p0['rule'], p0['reported'], sc0, sig, late, 0)
         chk.traces += 1
     evaluate.late = late
     return evaluate
@@ -1021,6 +1054,9 @@ CORPUS = [
          errcalc=['scripted', 11], steps=2, cap=400, observers=[['final', 'pw'], ['call'], ['final2']], idle=[True, False, False], restart=True),
     dict(strat='es', a=[0, 0], b=[1, 1], comps=[[[1, [2, 0]], [3, [1, 1]]]], ref=None, norm=0, boundary=True, lmin=1, lmax=2, seed=17,
          version=0, nrbe=1, auto=False, single_dim=True, errcalc=['scripted', 11], steps=2, cap=500, reeval_legs=True, observers=[[], ['final'], []], restart=True),
+    # many small steps of one dimension-wise object: the scheme stays the same over several stops, the refinement does not
+    dict(strat='dw', a=[0, 0], b=[1, 1], comps=_C2, ref=None, norm=0, boundary=True, lmin=1, lmax=3, seed=18, version=6, rebalancing=True,
+         errcalc=['scripted', 4242], steps=7, cap=800, margin=1.0, small_steps=True),
     dict(strat='cell', a=[0, 0], b=[1, 1], comps=_C2, ref=None, norm=0, boundary=True, lmin=1, lmax=2, seed=9, errcalc='lib', steps=3, cap=600),
     dict(strat='dw', a=[0, -1], b=[1, 1], comps=_C2, ref=None, norm=0, boundary=True, lmin=1, lmax=2, seed=10, version=6, rebalancing=True,
          errcalc='lib', steps=2, cap=400, op=['uq', 'Uniform'], ggrid='trapw', grid_surplusses=True, volume_weighting=True),
@@ -1060,6 +1096,7 @@ def _count_options(chk, c):
         put('margin', c.get('margin', 'default')); put('grid', c.get('ggrid', 'trap'))
         put('operation', 'Integration' if c.get('op', 'int') == 'int' else 'UncertaintyQuantification/%s' % (c['op'][1],))
         put('recalculate_frequently', c.get('recalc', False)); put('restart_with_refinement_container', bool(c.get('restart')))
+        put('many small steps (margin 1)', bool(c.get('small_steps')))
     elif c['strat'] == 'std':
         put('grid', c.get('grid', 'trap')); put('boundary', c.get('boundary', True)); put('levels', '%d..%d' % (c['lmin'], c['lmax']))
     elif c['strat'] == 'da':
@@ -1068,7 +1105,7 @@ def _count_options(chk, c):
 
 def run(chk):
     chk.coq_obligations()
-    n = chk.n(230, 5000)
+    n = chk.n(200, 5000)
     cases = CORPUS + [gen_case(chk.rng, chk.quick) for _ in range(n)]
     impl = run_impl(impl_run, cases, limit=240)
     # options outside the envelope because the unchanged code raises: still raising?
@@ -1084,6 +1121,7 @@ def run(chk):
     chk.extra['options_in_generator'] = OPTIONS
     mjobs, todo, keys, samples = [], [], [], []
     nside = nest = nmulti = 0
+    npairs = [0]
     for c, (st, r) in zip(cases, impl):
         chk.count('strat=' + c['strat']); chk.count('dim=%d' % len(c['a'])); chk.count('history=%s' % ('warmup' if c.get('warmup') else 'pre' if c.get('pre') else 'fresh'))
         chk.count('grid=%s%s' % (c.get('grid', c.get('ggrid', 'trap')), '+auto' if c.get('auto') else ''))
@@ -1119,6 +1157,10 @@ def run(chk):
             todo.append(run_adaptive_checks(chk, c, r, mjobs))
             ns = len(r['stops'])
             chk.count('stops=%d' % ns)
+            for s0, s1 in zip(r['stops'], r['stops'][1:]):
+                if s0.get('scheme_sig') == s1.get('scheme_sig') and s0.get('ref_sig') != s1.get('ref_sig'):
+                    chk.count('consecutive stops with unchanged scheme but changed refinement (%s%s)' % (c['strat'], ', rule asked at both' if 'rule' in s0 and 'rule' in s1 else ''))
+                    npairs[0] += 1 if 'rule' in s0 and 'rule' in s1 else 0
             sides = sum(1 for e in r['events'] if e[0] == 2 and len(e) > 5 and not e[5])
             ests = sum(1 for e in r['events'] if e[0] == 8)
             nside += sides; nest += ests
@@ -1145,6 +1187,8 @@ def run(chk):
     finish_rules(chk, todo)
     print('C05 option histogram: ' + ', '.join('%s:%d' % kv for kv in sorted(chk.extra.get('option_histogram', {}).items())
                                               if any(t in kv[0] for t in ('version', 'single_dim=', 'auto', 'recalc', 'grid=', 'operation', 'chebyshev', 'dim_adaptive'))))
+    print('C05 consecutive stop pairs with unchanged scheme but changed refinement at which the published rule was asked and checked: %d' % npairs[0])
+    chk.extra['unchanged_scheme_changed_refinement_pairs_with_rule'] = npairs[0]
     print('C05 side evaluations logged: %d (in %d cases during refinement), estimate evaluations: %d' % (nside, nmulti, nest))
     chk.record_cases(len(cases), keys,
                      'step-wise driven dimension-wise / extend-split (versions 0..3, split_single_dim, automatic_extend_split, recalculation) / cell runs '
